@@ -31,10 +31,10 @@ OBLIGATIONS += _v
 
 META = {
     "level": "model_checking",
-    "level_text": "Bounded model checking (CBMC) of the real lookup mechanisms that make a read return the latest write: ldb_version_get (level-0 newest-first, deeper levels by binary search, tombstones hide older values, snapshot bound) over a symbolic multi-level version against the reference 'newest entry <= snapshot over all entries of all files'; further mechanisms (memtable get, compaction drop rule, flush placement, boundary inputs) are added as separate obligations as they are built.",
+    "level_text": "Bounded model checking (CBMC) of the real mechanisms that make a read return the latest write, one unit per query against an independent reference: memtable/skiplist lookup (a), ldb_version_get over a symbolic multi-level version (b), the compaction drop rule of ldb_do_compaction_work - for every snapshot >= the oldest held one, reads before and after the compaction agree (c), ldb_compaction_is_base_level_for_key down to level 6 (d), flush placement and overlap helpers (e), boundary inputs / level-0 closure so that a newer version never ends up below an older one (f), and 'an acknowledged write is in the log and the memtable' for commit groups (w).",
     "level_note": "Trusted: CBMC semantics; the layout invariant of C14 is ASSUMED for the version (it is the subject of C14); the table layer is replaced by the contract of ldb_tables_get; sequences and file numbers range over 1..15 (only compared). Whole histories with real files, caches and reopen cycles are not executed: the composition of the per-mechanism obligations is prose (DESIGN section 6 C01).",
-    "bounds": ["<=3 level-0 files, <=2 files in each of two deeper levels, 1-2 entries per file, 1-byte user keys, any snapshot sequence"],
-    "outside": ["histories, option configurations, cache eviction, reopen cycles", "memtable lookup, compaction drop rule and flush placement until their obligations land"],
+    "bounds": ["memtable: <=4 entries, node heights <=3", "compaction: <=5 input entries over 2 user keys, <=2 snapshots", "version_set helpers: <=3 files per level on levels 0..6, user keys 0..15", "<=3 level-0 files, <=2 files in each of two deeper levels, 1-2 entries per file, 1-byte user keys, any snapshot sequence"],
+    "outside": ["histories, option configurations, cache eviction, reopen cycles", "block/table/filter/cache layers below ldb_tables_get (C16/C07), whole histories"],
     "models": ["ldb_tables_get contract model", "kit/vp_alloc.c"],
     "design_ref": "DESIGN.md section 6 C01",
 }
